@@ -259,6 +259,7 @@ pub fn check_nms(c: &NmsCase) -> CaseResult {
 }
 
 pub fn run(env: &Env, rep: &Report) {
+    stall_watchdog(300);
     rep.set_rule("lists of 0..40 boxes in up to 4 clusters (duplicates, nested, rotated, sparse), scores absent/present/mixed with ties, nms threshold 0.05..0.95, score threshold None/below/inside/above, invalid boxes mixed in. Non-trivial: >=1 box dropped by suppression and >=1 kept box overlapping a higher-ranked kept box; distinct = distinct serialized case");
     rep.assume("coverage of the lower-ranked box computed with oracle/geom.rs; decisions within 2e-4 of the threshold accept either outcome; score equal to the score threshold accepts either outcome");
     par_generated(rep, "lists", nms_case, env.tier.pick(1_200_000, 20_000_000), workers(), check_nms);
